@@ -165,6 +165,11 @@ def multi_branch_programs():
     yield {"calls": [["from", T], ["select", [fb]], ["groupby", [fb]], ["having", ["cmp", ">", af, raw(9)]], ["limit", 2]]}
     yield {"calls": [["from", T], ["select", [["as", wn, "w"], fb]], ["where", ["cmp", "=", fb, raw(5)]]]}
     yield {"calls": [["from", T], ["distinct_on", [["arith", "+", fa, raw(31)], fb]], ["select", [["arith", "*", fa, raw(32)], ["lit", 33]]], ["where", ["cmp", "=", fb, raw(34)]]]}
+    # DISTINCT aggregates over arguments that carry values
+    for fn in ("COUNT", "SUM"):
+        ad = ["agg", fn, ["arith", "+", fa, raw(10)], "distinct"]
+        yield {"calls": [["from", T], ["select", [ad, fb]], ["where", ["cmp", "=", fb, raw(5)]], ["groupby", [fb]]]}
+        yield {"calls": [["from", T], ["select", [fb]], ["groupby", [fb]], ["having", ["cmp", ">", ad, raw(9)]], ["limit", 2]]}
     # arrays that mix columns / expressions with constants
     for arr in (["array", [fa, raw(1)]], ["array", [raw(1), fa, raw("x")]], ["array", [["arith", "+", fa, raw(2)], fb]]):
         yield {"calls": [["from", T], ["select", [arr, fb]], ["where", ["cmp", "=", fb, raw(5)]]]}
@@ -437,6 +442,23 @@ def run_case(case):
         sql_p, vals = None, None
         err_p = type(e).__name__
     res.transitions += 2
+    if d == "generic" and sql_p is not None and callable(getattr(type(o), "get_parameterized_sql", None)):
+        # the explicit-context channel: get_parameterized_sql(ctx) == get_sql(ctx + parameterizer), for every dialect's context
+        from pypika_tortoise.terms import Parameterizer
+
+        for d2, ctx2 in fp.CTX.items():
+            try:
+                a_sql, a_vals = prog.build(p, dialect=d).get_parameterized_sql(ctx2)
+                pz = Parameterizer()
+                b_sql = prog.build(p, dialect=d).get_sql(ctx2.copy(parameterizer=pz))
+                b_vals = pz.values
+            except Exception:
+                continue
+            res.transitions += 2
+            if (a_sql, fp.vrepr(a_vals)) != (b_sql, fp.vrepr(b_vals)):
+                res.violate("C04|explicit-context|%s" % d2, "get_parameterized_sql(ctx) differs from get_sql(ctx carrying a parameterizer)",
+                            program=p, context=d2, got=a_sql, expected=b_sql, got_values=fp.vrepr(a_vals), expected_values=fp.vrepr(b_vals))
+                break
     if sql_i is None or sql_p is None:
         if (sql_i is None) != (sql_p is None):
             res.violate("C04|%s|raises-one-form" % d, "one of the two renderings raises, the other does not", program=p, dialect=d)
